@@ -501,7 +501,8 @@ class MultiCrossBlockRepeat(Block):
             preamble = 0
         lists = cast(List[T], [])
         while start < num_trials - preamble:
-            lists.append(proc(start, end))
+            # The last repetition is cut off when the trial count is not a whole number of repetitions
+            lists.append(proc(start, min(end, num_trials)))
             start += step
             end += step
         return lists
